@@ -164,7 +164,23 @@ def load_site(b, ctx, op, depth=0):
         return None
     pl = op["place"]
     if pl["p"]:
-        return None  # direct load at the use site: caller supplies the location
+        if any(e["k"] == "deref" for e in pl["p"]) or depth > 6:
+            return None  # direct load from memory at the use site: caller supplies the location
+        # a field of a local aggregate value (`let start = Offset(*bits); .. start.0`): the load
+        # happened where that field's operand was read
+        l0 = pl["l"]
+        defs0 = [d for d in ctx.org.defs.get(l0, ()) if d[0] == () and not d[3]]
+        if len(defs0) != 1 or defs0[0][1] != "stmt" or len(pl["p"]) != 1 or pl["p"][0]["k"] != "field":
+            return None
+        bi0, si0 = defs0[0][2]
+        rv0 = ctx.org.stmt(bi0, si0)["rv"]
+        k = pl["p"][0].get("i")
+        if rv0["k"] == "aggregate" and isinstance(k, int) and k < len(rv0["ops"]):
+            o2 = rv0["ops"][k]
+            if o2["k"] in ("copy", "move") and o2["place"]["p"] and any(e["k"] == "deref" for e in o2["place"]["p"]):
+                return (bi0, si0, o2["place"])
+            return load_site(b, ctx, o2, depth + 1)
+        return None
     l = pl["l"]
     defs = [d for d in ctx.org.defs.get(l, ()) if d[0] == () and not d[3]]
     if len(defs) != 1 or defs[0][1] != "stmt" or depth > 6:
@@ -173,7 +189,9 @@ def load_site(b, ctx, op, depth=0):
     rv = ctx.org.stmt(bi, si)["rv"]
     if rv["k"] == "use" and rv["op"]["k"] in ("copy", "move"):
         if rv["op"]["place"]["p"]:
-            return (bi, si, rv["op"]["place"])
+            if any(e["k"] == "deref" for e in rv["op"]["place"]["p"]):
+                return (bi, si, rv["op"]["place"])
+            return load_site(b, ctx, rv["op"], depth + 1) or (bi, si, rv["op"]["place"])
         return load_site(b, ctx, rv["op"], depth + 1)
     return None
 
@@ -434,6 +452,51 @@ def r_fanout(F, R, cat=None):
 # ColumnsRegion routing
 
 
+def column_bound_foreign(F, b, ctx, creates):
+    """positive evidence only: the column-creation guard compares the column count with the length
+    of something *reached through* the item (a field of it) that is not one of the forms the
+    item's own len() returns.  Returns a description or None."""
+    from expr import nobb
+    from r_bound import norm_len, return_forms, find_methods
+    item = ("place", b.key, ("arg", 2), ())
+    # the item's own length forms
+    own = set()
+    ity = b.locals[2]["ty"] if len(b.locals) > 2 else {}
+    adt = ity.get("adt")
+    if adt:
+        for lb in find_methods(F, adt, "len"):
+            for fm in return_forms(Ctx(lb)):
+                own.add(_rekey_root(fm, lb.key, b.key))
+    for e in creates:
+        for f in facts_at(e.ctx, e.bb):
+            if f[0] not in ("Lt", "Le", "Gt", "Ge"):
+                continue
+            sides = []
+            for side in (f[1], f[2]):
+                sides.extend(side[1] if side[0] == "phi" else [side])
+            for side in sides:
+                t = nobb(norm_len(side))
+                if t[0] != "len" or t[1][0] != "place" or t[1][1] != b.key or t[1][2] != ("arg", 2):
+                    continue
+                if not t[1][3]:
+                    continue  # len of the item itself
+                if t in own:
+                    continue
+                return "column count compared with %s, which is not the row's own length (%s)" % (
+                    show(side)[:70], [show(o)[:40] for o in sorted(own, key=repr)][:3] or "item.len()")
+    return None
+
+
+def _rekey_root(t, frm_key, to_key):
+    """a tree over (frm body, arg 1, path) expressed over (to body, arg 2, path): the receiver of
+    the item's len() is the pushed item"""
+    if not isinstance(t, tuple):
+        return t
+    if t and t[0] == "place" and t[1] == frm_key and t[2] == ("arg", 1):
+        return ("place", to_key, ("arg", 2)) + tuple(t[3:])
+    return tuple(_rekey_root(x, frm_key, to_key) for x in t)
+
+
 def r_columns(F, R, cat=None):
     cat = cat or Catalogue(F)
     COL = "impls::columns::ColumnsRegion"
@@ -475,6 +538,12 @@ def r_columns(F, R, cat=None):
             for f in facts_at(e.ctx, e.bb):
                 if f[0] in ("Lt", "Le", "Gt", "Ge") and ("inner" in show(f[1]) or "inner" in show(f[2])):
                     guard_ok = True
+        # ... and exactly as many as the row is long: the bound the column count is compared with is
+        # the item's own length, not the width of wherever the item came from
+        width_bad = column_bound_foreign(F, b, ctx, creates)
+        if width_bad:
+            R.check("R-COLUMNS", b.label(), False, construct="columns are created up to the row's own length",
+                    where=b.where(), detail=width_bad)
         R.check("R-COLUMNS", b.label(), ok_cell and aligned and ok_row and ret_ok and bool(creates) and guard_ok,
                 construct="cell i -> column i; row of cell indices -> indices; dense index returned unchanged",
                 where=b.where(),
@@ -488,16 +557,28 @@ def r_columns(F, R, cat=None):
         rets = [tree(ctx, o) for o in ctx.org.local(0)]
         ok = len(rets) == 1 and rets[0][0] == "call" and rets[0][1] == ("Region", "index")
         if ok:
-            col, idx = rets[0][2]
-            ok = col == ("place", b.key, ("arg", 1), ("f:columns", "[]")) and \
-                idx == ("place", b.key, ("arg", 1), ("f:index", "[]"))
-            # both subscripts are the parameter
+            from expr import nobb
+            col, idx = (nobb(x) for x in rets[0][2])
+            param = ("place", b.key, ("arg", 2), ())
+
+            def elem_form(t, fld):
+                """'builtin' for self.fld[..], 'get' for self.fld.get(param) on its Some edge"""
+                if t == ("place", b.key, ("arg", 1), ("f:" + fld, "[]")):
+                    return "builtin"
+                if t[0] == "call" and t[1][1] == "get" and t[1][0] in ("slice", "Vec", "array") and len(t[2]) == 2 and \
+                        t[2][0] == ("place", b.key, ("arg", 1), ("f:" + fld,)) and t[2][1] == param and \
+                        tuple(t[3]) == ("v:Some", "f:0"):
+                    return "get"
+                return None
+            forms = [elem_form(col, "columns"), elem_form(idx, "index")]
+            ok = all(forms)
+            # the subscripts of the built-in forms are the parameter
             subs = []
             for bi in sorted(b.live_blocks()):
                 t = b.term(bi)
                 if t["k"] == "assert" and t.get("msg") == "bounds":
                     subs.append(operand_tree(ctx, t["index"]))
-            ok = ok and len(subs) == 2 and all(s == ("place", b.key, ("arg", 2), ()) for s in subs)
+            ok = ok and len(subs) == forms.count("builtin") and all(s == param for s in subs)
         R.check("R-COLUMNS", b.label(), ok, construct="get(i) = columns[i].index(index[i])",
                 where=b.where(), detail="returns %s" % [show(t) for t in rets])
 
@@ -518,10 +599,21 @@ def same_pairing(ctx, recv_origins, val_origins):
         return True
     # enumerate form: value = param.1 ; receiver = index_mut(self.inner, param.0)
     if hv == {"f:1"}:
-        for (r, p) in recv_origins:
+        todo = list(recv_origins)
+        seen = set()
+        while todo:
+            (r, p) = todo.pop()
+            if (r, p) in seen:
+                continue
+            seen.add((r, p))
             if r[0] == "call":
                 t = ctx.body.term(r[1])
-                if callee_tag(t.get("callee")) == ("IndexMut", "index_mut") and len(t["args"]) == 2:
+                tg = callee_tag(t.get("callee"))
+                if tg[1] in ("unwrap", "expect") and t["args"] and t["args"][0]["k"] != "const":
+                    todo.extend(ctx.org.operand(t["args"][0]))  # the Some payload of a checked get_mut
+                    continue
+                if (tg == ("IndexMut", "index_mut") or (tg[1] == "get_mut" and tg[0] in ("slice", "Vec", "array"))) \
+                        and len(t["args"]) == 2:
                     for (r2, p2) in ctx.org.operand(t["args"][1]):
                         if r2 == ("arg", 2) and p2[:1] == ("f:0",):
                             return True
